@@ -60,7 +60,8 @@ func genCase(t *rapid.T) Case {
 		case 2:
 			c.Text = "    # " + d.LeadComment + "\n\n" + rest
 		case 3:
-			c.Text = "   \n# " + d.LeadComment + "\n\n" + rest
+			// (a line of one or two blanks puts the `#` of the next line inside the decoder's four-byte look-ahead)
+			c.Text = rapid.SampledFrom([]string{" ", "  ", "   ", "\t", " \t"}).Draw(t, "wsline") + "\n# " + d.LeadComment + "\n\n" + rest
 		case 4:
 			c.Text = "\xef\xbb\xbf" + c.Text
 		}
@@ -243,6 +244,12 @@ func check(c Case) hx.Verdict {
 		return hx.Bad("", "yq rejects a stream both independent readers accept (%s):\n%s", o.Err, c.Text)
 	}
 	out := o.Out
+	// (0) no comment line is invented: the generated comments are never empty
+	for _, l := range strings.Split(out, "\n") {
+		if t := strings.TrimSpace(l); t == "#" && !strings.Contains(c.Text, "\n"+l+"\n") {
+			return hx.Bad("", "the output has an empty comment line %q the input does not have:\ninput:\n%s\noutput:\n%s", l, c.Text, out)
+		}
+	}
 	// (a) data
 	if why, ok := sameData(out, truth, useGoccy); !ok {
 		return hx.Bad("", "`yq .` changed the data: %s\ninput:\n%s\noutput:\n%s", why, c.Text, out)
@@ -338,5 +345,50 @@ func hasNonBMP(s string) bool {
 }
 
 func TestProp(t *testing.T) {
-	hx.RunProperty(t, hx.NewSub("identity", 6000, 40000, genCase, check))
+	hx.RunProperty(t, hx.NewSub("identity", 6000, 40000, genCase, check), hx.NewSub("header_only", 400, 3000, genHeaderOnly, checkHeaderOnly))
+}
+
+// ---------------------------------------------------------------------------
+// Sub "header_only": a stream that holds comments and nothing else (a file whose content is commented out, a
+// licence header on its own) is printed as it is - every line, also a last one of one or two characters, with
+// or without a final line end, with blank lines and separators between the comment blocks.
+
+type HeaderCase struct {
+	Lines   []string `json:"lines"`
+	FinalNL bool     `json:"final_nl"`
+}
+
+func genHeaderOnly(t *rapid.T) HeaderCase {
+	var c HeaderCase
+	n := rapid.IntRange(1, 5).Draw(t, "n")
+	for i := 0; i < n; i++ {
+		l := rapid.SampledFrom([]string{"# a", "#b", "#", "# licence text", "#x", "# c", "  # indented", "#!shebang", "## two"}).Draw(t, "line")
+		if i > 0 && i < n-1 {
+			l = rapid.SampledFrom([]string{l, l, l, "", "---"}).Draw(t, "mid")
+		}
+		c.Lines = append(c.Lines, l)
+	}
+	c.FinalNL = rapid.Bool().Draw(t, "nl")
+	return c
+}
+
+func checkHeaderOnly(c HeaderCase) hx.Verdict {
+	text := strings.Join(c.Lines, "\n")
+	if c.FinalNL {
+		text += "\n"
+	}
+	o := hx.Run(".", text, hx.Opts{})
+	if o.Crashed() {
+		return hx.Bad("panic-site:"+o.PanicSite, "panic %s on %q", o.Panic, text)
+	}
+	if o.Err != "" {
+		return hx.Bad("", "a stream of comments is rejected (%s): %q", o.Err, text)
+	}
+	want := strings.TrimRight(text, "\n")
+	got := strings.TrimRight(o.Out, "\n")
+	if got != want {
+		return hx.Bad("", "a stream that holds only comments is not printed as it is: input %q, output %q", text, o.Out)
+	}
+	short := len(c.Lines[len(c.Lines)-1]) < 4
+	return hx.OK(len(c.Lines) >= 2 || short, text, fmt.Sprintf("short_last_line:%v", short), fmt.Sprintf("final_nl:%v", c.FinalNL))
 }
